@@ -647,6 +647,48 @@ Definition surface_exact_b (restyle : cell -> cell) (fill : Z) (lines : list (li
 Definition has_zero_width (lines : list (list cell)) : bool :=
   existsb (existsb (fun c => c_width c <=? 0)) lines.
 
+(* "exactly the emitted lines" also constrains the SIZE of the surface (findContainerSize): the
+   surface is as wide as the widest of the lines it shows (the first H ones), limited to Max.Width -
+   so no character of a shown line that starts left of Max.Width falls outside the surface and is
+   dropped by Surface.WriteCell, and no column is added that no line needs *)
+Fixpoint max_width (lines : list (list cell)) : Z :=
+  match lines with
+  | [] => 0
+  | l :: t => Z.max (sumw l) (max_width t)
+  end.
+
+Definition surface_width_b (lines : list (list cell)) (MaxW : Z) (obs : Z * Z * list cell) : bool :=
+  let '(W, H, buf) := obs in W =? Z.min MaxW (max_width (firstn (Z.to_nat H) lines)).
+
+(* nothing is dropped: every character of line i that starts left of Max.Width lies inside the
+   surface and is found in the cell at its column *)
+Fixpoint drawn_b (restyle : cell -> cell) (MaxW W : Z) (buf : list cell) (i : Z) (chars : list cell) (col : Z) : bool :=
+  match chars with
+  | [] => true
+  | ch :: t =>
+      if MaxW <=? col then true
+      else (col <? W) &&
+           match zget buf (i * W + col) with
+           | Some x => cell_eqb x (restyle ch)
+           | None => false
+           end && drawn_b restyle MaxW W buf i t (col + c_width ch)
+  end.
+
+(* the whole clause "the widget draws exactly the emitted lines, one per row" on one observation *)
+Definition surface_full_b (restyle : cell -> cell) (fill : Z) (lines : list (list cell)) (MaxW MaxH : Z)
+           (obs : Z * Z * list cell) : bool :=
+  surface_exact_b restyle fill lines MaxW MaxH obs && surface_width_b lines MaxW obs &&
+  let '(W, H, buf) := obs in
+  forallb (fun i => match zget lines i with
+                    | Some l => drawn_b restyle MaxW W buf i l 0
+                    | None => false
+                    end) (map Z.of_nat (seq 0 (Z.to_nat H))).
+
+(* the part of it that does not depend on the guard of zero-width-overdraw *)
+Definition surface_sized_b (restyle : cell -> cell) (fill : Z) (lines : list (list cell)) (MaxW MaxH : Z)
+           (obs : Z * Z * list cell) : bool :=
+  surface_ok_b restyle fill lines MaxW MaxH obs && surface_width_b lines MaxW obs.
+
 (* draw case: (is_rich, style, MaxW, MaxH, lines as drawn characters, observed (W, H, buffer)) *)
 Definition draw_case := (bool * Z * Z * Z * list (list cell) * (Z * Z * list cell))%type.
 Definition draw_restyle (rich : bool) (style : Z) : cell -> cell :=
@@ -659,8 +701,13 @@ Definition draw_case_mismatch (k : draw_case) : bool :=
   end.
 Definition draw_case_violation (k : draw_case) : bool :=
   let '(rich, style, MaxW, MaxH, lines, obs) := k in
-  negb (surface_exact_b (draw_restyle rich style) (if rich then 0 else style) lines MaxW MaxH obs).
-Definition c16_draw_known (cases : list draw_case) : list Z :=
-  bad_indices (fun k : draw_case => let '(_, _, _, _, lines, _) := k in has_zero_width lines) cases.
+  negb (surface_full_b (draw_restyle rich style) (if rich then 0 else style) lines MaxW MaxH obs).
+(* under the guard of the recorded finding: a zero-width character is drawn AND the clauses that do
+   not depend on the guard (rows, cells, size of the surface) hold of the observation *)
+Definition draw_case_known (k : draw_case) : bool :=
+  let '(rich, style, MaxW, MaxH, lines, obs) := k in
+  has_zero_width lines &&
+  surface_sized_b (draw_restyle rich style) (if rich then 0 else style) lines MaxW MaxH obs.
+Definition c16_draw_known (cases : list draw_case) : list Z := bad_indices draw_case_known cases.
 Definition c16_draw_mismatches (cases : list draw_case) : list Z := bad_indices draw_case_mismatch cases.
 Definition c16_draw_violations (cases : list draw_case) : list Z := bad_indices draw_case_violation cases.
